@@ -68,7 +68,7 @@ theorem step_stx_stack {env : Env} {st : List Byte} {m : Mach} (hI : Inv st m)
 
 theorem Inv.setStack {st : List Byte} {m : Mach} (h : Inv st m) (s : Nat → Option Byte) :
     Inv st { m with stack := s } :=
-  { r6 := h.r6, r9 := h.r9, r10 := h.r10, regsLen := h.regsLen, stEq := h.stEq, stLen := h.stLen }
+  { r6 := h.r6, r9 := h.r9, r10 := h.r10, regsLen := h.regsLen, sim := h.sim, stLen := h.stLen }
 
 theorem reg_setStack (m : Mach) (s : Nat → Option Byte) (r : Nat) :
     ({ m with stack := s } : Mach).reg r = m.reg r := rfl
